@@ -40,7 +40,21 @@ PRINTED = ('body_pos', 'body_quat', 'body_gravcomp', 'jnt_pos', 'jnt_axis', 'jnt
            'actuator_ctrlrange', 'actuator_forcerange', 'actuator_gainprm', 'actuator_biasprm', 'key_time', 'key_qvel',
            'key_act', 'key_ctrl', 'numeric_data', 'pair_friction', 'pair_margin', 'eq_solref')
 OPT6 = ('opt.timestep', 'opt.gravity', 'opt.impratio', 'opt.wind', 'opt.density', 'opt.viscosity')
+# sizes / integer arrays that depend on exact-zero tests of derived floats (is the inertia frame aligned with the body
+# frame, is a body "simple", sparsity of M): rounding the printed numbers to 6 digits may legitimately flip them
+STRUCTURE6 = ('nM', 'nB', 'nC', 'nD', 'body_simple', 'body_sameframe', 'geom_sameframe', 'site_sameframe', 'dof_simplenum',
+              'dof_Madr', 'M_rownnz', 'M_rowadr', 'M_colind', 'mapM2M', 'D_rownnz', 'D_rowadr', 'D_diag', 'D_colind',
+              'mapM2D', 'mapD2M', 'B_rownnz', 'B_rowadr', 'B_colind', 'names_map')
+MESH_F32_TOL = 2e-5     # ~100 x float32 epsilon (1.2e-7), applies only to models with meshes
 RTOL6 = 2e-5       # 6 significant digits: relative rounding error <= 5e-6 per printed number; x4 for normalisations
+
+
+# arrays that change when all masses/inertias are rescaled (settotalmass) ...
+MASS_SCALE_FIELDS = {'body_mass', 'body_subtreemass', 'body_inertia', 'body_invweight0', 'dof_invweight0', 'dof_M0',
+                     'tendon_invweight0', 'actuator_acc0', 'stat.meanmass', 'stat.meaninertia', 'eq_data'} - {'eq_data'}
+# ... and additionally when the set of geoms that contribute to body inertia changes (inertiagrouprange)
+MASS_FRAME_FIELDS = {'body_ipos', 'body_iquat', 'body_sameframe', 'body_simple', 'geom_sameframe', 'stat.center',
+                     'stat.extent', 'stat.meansize', 'dof_simplenum', 'body_gravcomp'} - {'body_gravcomp'}
 
 
 def order_unsafe(xml):
@@ -111,10 +125,30 @@ def is_permutation_only(lib, m1, m2):
   return differs
 
 
+def upstream_failing_patterns(repo):
+  """File-name patterns that the maintainers' own write/read test excludes because they "fail the comparison test"
+  (read at run time from test/xml/xml_write_read_test.cc)."""
+  import re
+  try:
+    t = open(os.path.join(repo, 'test', 'xml', 'xml_write_read_test.cc')).read()
+  except OSError:
+    return []
+  i = t.find('exclude files that fail the comparison test')
+  if i < 0:
+    return []
+  j = t.find('continue;', i)
+  block = t[i:j]
+  k = block.find('exclude conflict tests')
+  if k > 0:
+    block = block[:k]
+  return re.findall(r'StrContains\(xml, "([^"]+)"\)', block)
+
+
 class C32:
   def __init__(self, ck):
     self.ck = ck
     self.lib = ck.lib('rel')
+    self.upstream_fail = upstream_failing_patterns(self.lib.repo)
     os.makedirs(WORKDIR, exist_ok=True)
     self.worst6 = {}
 
@@ -155,7 +189,13 @@ class C32:
       if diffs:
         msg = '%s: save/reload at full precision changes the model: %s' % (name, modelcmp.fmt(diffs))
         dropped = self.explained_by_dropped_directive(m, spec, text, filedir)
-        if dropped:
+        if m.nmesh and all(d.kind == 'float' and d.err < MESH_F32_TOL for d in diffs):
+          # mesh vertices/normals are stored and saved as 32-bit floats: quantities derived from a mesh that was first
+          # processed in double precision (file or inline input) reproduce only to float32 accuracy
+          ck.label('mesh-float32-accuracy')
+          facts['meshf32'] = max(d.err for d in diffs)
+          self.worst_meshf32 = max(getattr(self, 'worst_meshf32', 0.0), facts['meshf32'])
+        elif dropped:
           for attr in dropped:
             ck.violation(msg + '  [the writer does not save <compiler %s>; with the attribute re-inserted into the saved '
                          'text the models are identical]' % attr, replay, bucket='compiler-%s-not-saved' % attr,
@@ -197,8 +237,8 @@ class C32:
         raise Violation('%s: XML saved at default precision does not load: %s' % (name, str(e)[:300]),
                         bucket='saved-xml6-rejected')
       lib.mj_deleteSpec(s6)
-      d6 = modelcmp.compare(lib, m, m6, mode='rel', rtol=1e300, skip=('signature',), structs=False, scalars=False,
-                            skip_fn=modelcmp.upstream_skips, skip_sizes=('nbuffer',))
+      d6 = modelcmp.compare(lib, m, m6, mode='rel', rtol=1e300, skip=('signature',) + STRUCTURE6, structs=False,
+                            scalars=False, skip_fn=modelcmp.upstream_skips, skip_sizes=('nbuffer',) + STRUCTURE6)
       d6 = [d for d in d6 if d.kind != 'float']
       if d6:
         raise Violation('%s: save/reload at default precision changes sizes/integer arrays: %s' % (
@@ -251,6 +291,20 @@ class C32:
         lib.mj_deleteSpec(sx)
         if not modelcmp.compare(lib, m, mx, mode='upstream', skip=('signature',)):
           return list(sub)
+    # not exactly reproduced by re-insertion (e.g. together with saveinertial / boundinertia the saved explicit inertials
+    # are pre-scaling values): still the same finding when only mass-property arrays differ
+    try:
+      m2, s2 = self.reload(text, filedir)
+    except mj.MjError:
+      return []
+    lib.mj_deleteSpec(s2)
+    fields = set(d.field for d in modelcmp.compare(lib, m, m2, mode='upstream', skip=('signature',)))
+    if 'settotalmass' in cand and fields <= MASS_SCALE_FIELDS:
+      return ['settotalmass']
+    if 'inertiagrouprange' in cand and fields <= (MASS_SCALE_FIELDS | MASS_FRAME_FIELDS) and 'settotalmass' not in cand:
+      return ['inertiagrouprange']
+    if len(cand) == 2 and fields <= (MASS_SCALE_FIELDS | MASS_FRAME_FIELDS):
+      return sorted(cand)
     return []
 
   def lastxml_route(self, name, path):
@@ -386,7 +440,13 @@ def main(ck):
         facts = c.check_spec(rel, m, s, unsafe=unsafe, filedir=os.path.dirname(f) + '/', replay=dict(file=rel),
                              precision6=m.nbody < 120)
       except Violation as e:
-        ck.violation('Violation: %s' % e, dict(file=rel), bucket=e.bucket)
+        pat = [p for p in c.upstream_fail if p in f]
+        if pat:
+          ck.violation('Violation: %s  [file matches "%s" in the maintainers\' own list of models that fail the save/load '
+                       'comparison, test/xml/xml_write_read_test.cc]' % (e, pat[0]), dict(file=rel),
+                       bucket='upstream-acknowledged:' + pat[0], fingerprint='upstream-acknowledged:' + pat[0])
+        else:
+          ck.violation('Violation: %s' % e, dict(file=rel), bucket=e.bucket)
         continue
       ncorpus += 1
       nt = any(t in src for t in ('<frame', 'childclass', '<replicate', '<default class'))
@@ -409,6 +469,8 @@ def main(ck):
   ck.extra['worst_relative_error_default_precision'] = {k: float('%.3g' % v) for k, v in sorted(
       c.worst6.items(), key=lambda kv: -kv[1])[:8]}
   ck.extra['rtol_default_precision'] = RTOL6
+  ck.extra['worst_mesh_float32_error'] = getattr(c, 'worst_meshf32', 0.0)
+  ck.extra['upstream_acknowledged_patterns'] = c.upstream_fail
 
 
 LEVEL = 'exploration'
